@@ -6,6 +6,7 @@ mod m_chain;
 #[cfg(eyeball_verif)]
 mod m_conc;
 mod m_diff;
+mod m_e2e;
 mod m_lin;
 mod m_obs;
 mod m_own;
@@ -28,6 +29,7 @@ fn main() {
         "own" => m_own::run_line,
         "race" => m_race::run_line,
         "aobs" => m_aobs::run_line,
+        "e2e" => m_e2e::run_line,
         #[cfg(eyeball_verif)]
         "conc" => m_conc::run_line,
         "obs" => {
